@@ -503,10 +503,77 @@ fn thr(_toks: &[&str], _out: &mut Vec<String>) -> R<()> {
     Err(NoImpl)
 }
 
+/// `rf excl <amx|arw>`: does a mutable borrow really hold the lock?  The `Reference` under test is the ONLY strong owner of its
+/// `Arc` (another thread gets in through a `Weak`); while the main thread keeps `borrow_mut()` alive, the other thread's
+/// `borrow_mut()` must block.  Prints `<the other thread did NOT get in early>;<final counter>` = `true;I:2`.
+#[cfg(feature = "std")]
+fn excl(toks: &[&str], out: &mut Vec<String>) -> R<()> {
+    want(toks, 3)?;
+    let variant = toks[2];
+    if !matches!(variant, "amx" | "arw") {
+        return Err(NoImpl);
+    }
+    let (cell, _flag) = new_cell();
+    let entered = Arc::new(AtomicBool::new(false));
+    let e2 = entered.clone();
+    let (r, join): (Reference<Cell>, Box<dyn FnOnce() -> std::thread::JoinHandle<()>>) = if variant == "amx" {
+        let arc = Arc::new(Mutex::new(cell));
+        let weak = Arc::downgrade(&arc);
+        (
+            Reference::from_arc_mutex(arc),
+            Box::new(move || {
+                std::thread::spawn(move || {
+                    let r2 = Reference::from_arc_mutex(weak.upgrade().expect("the main thread keeps the target alive"));
+                    let mut b = r2.borrow_mut();
+                    e2.store(true, Ordering::SeqCst);
+                    let v = b.get();
+                    b.put(v + 1);
+                })
+            }),
+        )
+    } else {
+        let arc = Arc::new(RwLock::new(cell));
+        let weak = Arc::downgrade(&arc);
+        (
+            Reference::from_arc_rw_lock(arc),
+            Box::new(move || {
+                std::thread::spawn(move || {
+                    let r2 = Reference::from_arc_rw_lock(weak.upgrade().expect("the main thread keeps the target alive"));
+                    let mut b = r2.borrow_mut();
+                    e2.store(true, Ordering::SeqCst);
+                    let v = b.get();
+                    b.put(v + 1);
+                })
+            }),
+        )
+    };
+    let early;
+    let handle;
+    {
+        let mut guard = r.borrow_mut();
+        handle = join();
+        std::thread::sleep(std::time::Duration::from_millis(80));
+        early = entered.load(Ordering::SeqCst);
+        let v = guard.get();
+        guard.put(v + 1);
+    }
+    if let Err(payload) = handle.join() {
+        std::panic::resume_unwind(payload);
+    }
+    let v = r.borrow().get();
+    out.push(format!("{};{}", (!early).enc(), f_rawi(v)));
+    Ok(())
+}
+#[cfg(not(feature = "std"))]
+fn excl(_toks: &[&str], _out: &mut Vec<String>) -> R<()> {
+    Err(NoImpl)
+}
+
 pub fn run(toks: &[&str], out: &mut Vec<String>) -> R<()> {
     let op = toks.get(1).copied().ok_or(NoImpl)?;
     match op {
         "thr" => thr(toks, out),
+        "excl" => excl(toks, out),
         _ => events(toks, out),
     }
 }
